@@ -17,12 +17,16 @@ import (
 	"context"
 	"encoding/json"
 	"fmt"
+	"github.com/thushan/olla/internal/core/domain"
+	"github.com/thushan/olla/internal/zz_verif/anth"
+	"github.com/thushan/olla/internal/zz_verif/stack"
 	"net/http"
 	"net/http/httptest"
 	"os"
 	"sort"
 	"strconv"
 	"strings"
+	"time"
 
 	"github.com/thushan/olla/internal/adapter/translator/anthropic"
 	"github.com/thushan/olla/internal/config"
@@ -1088,6 +1092,78 @@ type env struct {
 	n   int
 	// forceInspector is set by a replay of a case that ran with the inspector on
 	forceInspector *bool
+	// slices: the production stack end to end (one per engine): endpoint A refuses connections, endpoint B records what
+	// it is sent; every request is a failover, what B receives is "the request Olla sends upstream"
+	slices []*slice
+}
+
+type slice struct {
+	s    *stack.Stack
+	a, b *stack.Backend
+}
+
+func newSlice(engine string) *slice {
+	a, b := stack.NewBackend("A"), stack.NewBackend("B")
+	b.KeepBodies = true
+	b.SetScript(func(_ int, sn *stack.Seen) stack.Behaviour { return anth.OKAnswer("B", sn) })
+	a.Refuse()
+	s, err := stack.Start(stack.Opts{Engine: engine, Balancer: "priority", EPs: []stack.EP{{Name: "A", Type: "openai", Priority: 300, Backend: a}, {Name: "B", Type: "openai", Priority: 100, Backend: b}},
+		Mutate: func(cfg *config.Config) {
+			cfg.Translators.Anthropic.Enabled = true
+			cfg.Translators.Anthropic.MaxMessageSize = 10 << 20
+		}})
+	if err != nil {
+		a.Close()
+		b.Close()
+		return nil
+	}
+	return &slice{s: s, a: a, b: b}
+}
+
+func (sl *slice) close() {
+	sl.s.Stop()
+	sl.a.Close()
+	sl.b.Close()
+}
+
+// callStack sends the request through the running stack and reads back what the working backend received.
+func (e *env) callStack(sl *slice, model, body string) map[string]any {
+	impl := map[string]any{"inspector": false, "stack": true}
+	for _, be := range []*stack.Backend{sl.a, sl.b} {
+		if err := anth.Register(sl.s, be, []string{model}); err != nil {
+			impl["ok"], impl["err"] = false, "stack: register: "+err.Error()
+			return impl
+		}
+	}
+	sl.s.SetStatus("A", domain.StatusHealthy) // the previous request's refused attempt took A out of rotation
+	sl.s.SetStatus("B", domain.StatusHealthy)
+	deadline := time.Now().Add(2 * time.Second)
+	for !anth.Routable(sl.s, []*stack.Backend{sl.a, sl.b}, model) && time.Now().Before(deadline) {
+		time.Sleep(time.Millisecond)
+	}
+	sl.b.Taken()
+	r := stack.Do(sl.s.Addr, stack.Request("POST", "/olla/anthropic/v1/messages", sl.s.Addr, [][2]string{{"Content-Type", "application/json"}, {"anthropic-version", "2023-06-01"}}, []byte(body), false), 4*time.Second)
+	seen := sl.b.Taken()
+	if len(seen) != 1 {
+		impl["ok"], impl["err"] = false, fmt.Sprintf("stack: client status %d err '%s', the working backend saw %d request(s)", r.Status, r.Err, len(seen))
+		return impl
+	}
+	impl["ok"] = true
+	o, bad := readOpenAI(seen[0].Body)
+	if bad != "" {
+		impl["shape"] = bad
+		raw := seen[0].Body
+		if len(raw) > 400 {
+			raw = raw[:400]
+		}
+		impl["raw"] = string(raw)
+		return impl
+	}
+	impl["out"] = o
+	impl["shape"] = o["shape"]
+	delete(o, "shape")
+	impl["meta_ok"] = seen[0].Path == "/v1/chat/completions" && seen[0].Method == "POST"
+	return impl
 }
 
 func (e *env) call(body string) (out map[string]any) {
@@ -1141,12 +1217,23 @@ func (e *env) call(body string) (out map[string]any) {
 
 func (e *env) reqCase(class string, q *AReq) {
 	body := q.render(e.r)
-	m := map[string]any{"kind": "req", "class": class, "req": q, "impl": e.call(body)}
+	impl := e.call(body)
+	m := map[string]any{"kind": "req", "class": class, "req": q, "impl": impl}
 	if len(body) <= 2500 {
 		m["body"] = body
 	}
 	e.c.Emit(m)
 	e.c.Count("req." + class)
+	// every seventh accepted request also travels through the production stack, as a failover
+	if ok, _ := impl["ok"].(bool); ok && len(e.slices) > 0 && e.n%7 == 0 && len(body) < 1<<18 && strings.TrimSpace(q.Model) != "" {
+		sl := e.slices[(e.n/7)%len(e.slices)]
+		m2 := map[string]any{"kind": "req", "class": class + ".stack", "req": q, "impl": e.callStack(sl, q.Model, body)}
+		if len(body) <= 2500 {
+			m2["body"] = body
+		}
+		e.c.Emit(m2)
+		e.c.Count("req.stack")
+	}
 }
 
 func (e *env) malformed(why, body string, expectError bool) {
@@ -1191,6 +1278,12 @@ func main() {
 			Inspector: config.InspectorConfig{Enabled: true, OutputDir: dir, SessionHeader: "X-Session-ID"}})
 	}
 	r := e.r
+	for _, engine := range []string{"sherpa", "olla"} {
+		if sl := newSlice(engine); sl != nil {
+			e.slices = append(e.slices, sl)
+			defer sl.close()
+		}
+	}
 
 	if p := vlib.ReplayPath(); p != "" {
 		b, err := os.ReadFile(p)
